@@ -14,7 +14,7 @@ RULE = ("seeded models with random cost rates (incl. 0), absence patterns and ru
 ASSUMPTIONS = ["unit_time = 1", "models <= 8 tasks"]
 LEVEL_TEXT = "Seeded exploration; the full cost hierarchy is recomputed from the state logs for every step of every run."
 LEVEL_NOTE = "Trusted: the recomputation in the oracle; sampling evidence only."
-PROBES = ["charged_worker_step", "charged_facility_step", "zero_cost_working_resource", "absence_step_zero_cost",
+PROBES = ["history_runs", "charged_worker_step", "charged_facility_step", "zero_cost_working_resource", "absence_step_zero_cost",
           "individually_absent_holder_not_charged"]
 
 
@@ -30,7 +30,17 @@ def gen(rng, tier):
         focus["proj_abs"] = True
     if rng.random() < 0.4:
         focus["res_abs"] = True
-    return C.forward_spec(rng, tier, focus)
+    spec = C.forward_spec(rng, tier, focus)
+    if rng.random() < 0.3:
+        spec["history"] = {"k": rng.randint(0, 8), "state": rng.random() < 0.5, "log": rng.random() < 0.5}
+    return spec
+
+
+def extra_candidates(spec):
+    if spec.get("history") is not None:
+        c = dict(spec)
+        c.pop("history")
+        yield c
 
 
 def close(a, b, exact):
@@ -108,10 +118,33 @@ def check_logs(res, project, ix, absence, exact, steps_t=None, prefix="C07"):
 
 
 def run(spec):
-    tr = C.run_forward(spec)
-    res = C.base_result(tr)
+    from .. import scen
+    hist = spec.get("history")
+    if hist is None:
+        tr = C.run_forward(spec)
+        res = C.base_result(tr)
+        steps_t = [s.t for s in C.full_steps(tr.rec)]
+    else:
+        # interrupted run continued with a seeded combination of initialize flags: the accounting must still add up
+        first = dict(spec["cfg"])
+        first["max_time"] = hist["k"]
+        cut = dict(spec, cfg=first)
+        tr = C.run_forward(cut)
+        res = C.base_result(tr)
+        res.count("history_runs")
+        res.count("history_flags_state%d_log%d" % (int(hist["state"]), int(hist["log"])))
+        steps_t = None
+        if tr.out.ok:
+            cfg2 = dict(spec["cfg"])
+            cfg2["init_state"], cfg2["init_log"] = bool(hist["state"]), bool(hist["log"])
+            rec2, out2 = scen.simulate(tr.project, cfg2, want_snap=False)
+            res.steps += rec2.n_recorded
     exact = spec.get("profile", {}).get("alphabet") == "dyadic"
-    steps_t = [s.t for s in C.full_steps(tr.rec)]
     tot, n = check_logs(res, tr.project, tr.ix, tr.absence, exact, steps_t)
+    for kind, groups in (("team", [(tm, tm.worker_list) for tm in tr.ix.teams]), ("workplace", [(wp, wp.facility_list) for wp in tr.ix.wps])):
+        for g, members in groups:
+            if len(g.cost_list) != len(tr.project.cost_list) or any(len(r.cost_list) != len(g.cost_list) for r in members):
+                res.add("len", "C07.length_mismatch.%s" % kind, "%s %s has %d cost entries, its members %s, the project %d"
+                        % (kind, g.ID, len(g.cost_list), [len(r.cost_list) for r in members], len(tr.project.cost_list)), None)
     res.nontrivial = tot > 0 and n >= 2
     return C.finish(res, tr)
